@@ -157,6 +157,13 @@ where
     T: Real + RealAngle + Into<f64> + Powi + Arithmetics + Clone,
 {
     fn from_color_unclamped(color: Lchuv<Wp, T>) -> Self {
+        // The gamut collapses to a point at zero lightness, where the bounds
+        // are undefined and the reference implementation sets the saturation to 0.
+        let l: f64 = color.l.clone().into();
+        if l < 0.00000001 {
+            return Hsluv::new(color.hue, T::from_f64(0.0), color.l);
+        }
+
         // convert the chroma to a saturation based on the max
         // saturation at a particular hue.
         let max_chroma =
